@@ -6,7 +6,7 @@ PROP = "C01"
 
 def run(rep, tier):
     return run_core(
-        rep, "C01", ["flat_s", "chain_s", "ctrl", "xmod", "nest", "consten"], ["flat", "flat3_s", "chain", "ctrl", "xmod_l", "nest", "val", "prov", "consten"], tier,
+        rep, "C01", ["flat_s", "chain_s", "ctrl", "xmod", "nest", "consten"], ["flat", "flat3_s", "chain_m", "ctrl", "xmod_l", "nest", "val", "prov", "consten"], tier,
         "every design of the listed families is built with the real library under both schedulers and explored by BFS over "
         "its register state (FSM state, sync witnesses, round-robin arbiter) with all 2^n input valuations in every state; per "
         "valuation the number of active call sites (caller runs, conditions hold, enable_call) of every exclusive method must "
